@@ -551,6 +551,11 @@ def run_qbins(desc, ctx):
     from vmon.props import c07
     c07.run_quantile_events(desc, ctx)
     ctx.count("quantile_bin_semantics_runs")
+    # -q and -leg with -m obsfcst: one column per (quantile, input), quantile-major, named "<legend name> <level>%"
+    from vmon.props import c12
+    rng = random.Random("C13-of-%s-%s" % (desc["seed"], desc["k"]))
+    for ci in range(10 if desc.get("tier") == "quick" else 80):
+        c12.obsfcst_table(ctx, rng, ci, options=True)
 
 
 def run_shard(desc, ctx):
